@@ -32,12 +32,19 @@ def family(rng):
             consts.append(pool_syms[len(set(consts)) % len(pool_syms)] if len(set(consts)) < len(pool_syms) else consts[-1])
     dyn = []
     is_tau = []
+    denom_pairs = []
     for i in range(n):
         k = consts[i]
         use_tau = form == "tau" or (form == "mixed" and i % 2 == 1)
         is_tau.append(use_tau)
         decay = ("-x%d/%s" % (i, k)) if use_tau else ("-%s*x%d" % (k, i))
         feed = (" + x%d" % parents[i]) if parents[i] is not None else ""
+        if parents[i] is not None and consts[i] != consts[parents[i]] and is_tau[i] == (form == "tau") and rng.random() < 0.35:
+            # the system matrix itself has the parameter difference in a denominator: k_i = k_j makes A undefined,
+            # so that equality must NOT be reported
+            a_, b_ = consts[parents[i]], consts[i]
+            feed = " + w_c/(%s - %s)*x%d" % (a_, b_, parents[i])
+            denom_pairs.append(sorted([a_, b_]))
         dyn.append({"expression": "x%d' = %s%s" % (i, decay, feed), "initial_value": "1"})
     if rng.random() < 0.3:
         # a disconnected extra node whose decay uses an already used constant in the *other* form: the system matrix then
@@ -60,7 +67,7 @@ def family(rng):
                     ra, rb = (("1/" + a) if is_tau[i] else a), (("1/" + b) if is_tau[j] else b)
                     # a = 1/b written in either direction
                     alts = [sorted([a, "1/" + b]), sorted([b, "1/" + a])]
-                if alts is not None:
+                if alts is not None and not any(sorted([a, b]) == dp for dp in denom_pairs):
                     expected.add(json.dumps(alts))
             j = parents[j]
     return {"indict": {"dynamics": dyn}, "expected": sorted(json.loads(x) for x in expected), "form": form, "n": n}
